@@ -47,9 +47,10 @@ class Link:
     def dispatcher_threads(self):
         return [t for t in threading.enumerate() if "protocol_dispatcher" in t.name and t.is_alive()]
 
-    def reply_frame(self, system, marker):
-        body = self.sf.function(1, 2)([str(marker), "v"]).encode()
-        return gemrig.data_frame(1, 2, system, body)
+    def reply_frame(self, system, marker, w=False):
+        # w: a primary of the peer (S1F13 with W-bit) instead of a reply (S1F2)
+        body = self.sf.function(1, 13 if w else 2)([str(marker), "v"]).encode()
+        return gemrig.data_frame(1, 13 if w else 2, system, body, w)
 
 
 def parked(proto, system):
@@ -88,12 +89,14 @@ def route_case(rnd, link, k, extra):
     link.rig.settle()
     # which requester holds which system: by the queue object it waits on is not visible -> identify after the answer by marker
     answered = [s for s in systems if rnd.random() < 0.75]
-    arrivals = [(s, 1000 + i) for i, s in enumerate(answered)]
+    arrivals = [(s, 1000 + i, False) for i, s in enumerate(answered)]
     unknown = [rnd.choice([5, 6, 0xFFFFFFFF, 123456]) for _ in range(extra)]
-    arrivals += [(s, 2000 + i) for i, s in enumerate(unknown)]
+    arrivals += [(s, 2000 + i, rnd.random() < 0.3) for i, s in enumerate(unknown)]
+    # primaries of the peer (W-bit) that happen to carry the system bytes of an outstanding request: for the application, not the requester
+    arrivals += [(s, 3000 + i, True) for i, s in enumerate(systems) if extra and rnd.random() < 0.3]
     rnd.shuffle(arrivals)
     del link.app[:]
-    link.rig.conn.feed(b"".join(link.reply_frame(s, m) for s, m in arrivals))
+    link.rig.conn.feed(b"".join(link.reply_frame(s, m, w) for s, m, w in arrivals))
     if not link.rig.settle():
         raise common.Wedged("did not settle after the burst")
     # the answered requesters return on their own; the others are released as a T3 expiry does
@@ -122,7 +125,7 @@ def route_case(rnd, link, k, extra):
         answers.append(lst.pop(0) if lst else None)
     leftovers = sum(len(v) for v in got.values())
     nres = sum(1 for h in holders if h.get("result") is not None)
-    lit = ("(KRoute " + L.zlist(systems) + " [" + ";".join(f"({L.z(s)}, {L.z(m)})" for s, m in arrivals) + "] ["
+    lit = ("(KRoute " + L.zlist(systems) + " [" + ";".join(f"({L.z(s)}, {L.z(m)}, {L.bool_(w)})" for s, m, w in arrivals) + "] ["
            + ";".join("None" if a is None else f"(Some {L.z(a)})" for a in answers) + "] [" + ";".join(f"({L.z(s)}, {L.z(m)})" for s, m in link.app) + "])")
     return lit, {"systems": systems, "arrivals": arrivals, "answers": answers, "app": list(link.app), "extra_results": leftovers, "results": nres}
 
@@ -178,7 +181,7 @@ def instant_case(link, k):
             got.setdefault(r.header.system, []).append(int(link.sf.decode(r).get()[0]))
     systems = [s_ for s_, _ in arrivals]
     answers = [(got.get(s_) or [None])[0] for s_ in systems]
-    lit = ("(KRoute " + L.zlist(systems) + " [" + ";".join(f"({L.z(s_)}, {L.z(m)})" for s_, m in arrivals) + "] ["
+    lit = ("(KRoute " + L.zlist(systems) + " [" + ";".join(f"({L.z(s_)}, {L.z(m)}, false)" for s_, m in arrivals) + "] ["
            + ";".join("None" if a is None else f"(Some {L.z(a)})" for a in answers) + "] [" + ";".join(f"({L.z(s_)}, {L.z(m)})" for s_, m in link.app) + "])")
     return lit, {"systems": systems, "arrivals": arrivals, "answers": answers, "app": list(link.app), "extra_results": 0, "results": sum(1 for a in answers if a is not None)}
 
